@@ -17,6 +17,7 @@ import (
 	"verifharness/drv/rl"
 	"verifharness/drv/rt"
 	"verifharness/drv/sy"
+	"verifharness/drv/tf"
 	"verifharness/drv/ts"
 )
 
@@ -54,6 +55,8 @@ func main() {
 		os.Exit(ag.Main(os.Args[2:]))
 	case "rl":
 		os.Exit(rl.Main(os.Args[2:]))
+	case "tf":
+		os.Exit(tf.Main(os.Args[2:]))
 	case "hb":
 		os.Exit(hb.Main(os.Args[2:]))
 	default:
